@@ -249,6 +249,28 @@ func runC16(p *eng.Prog, r *eng.Report, tier string) {
 		}
 		c.r.Floor("C16.3", "unhex operands", n, 2)
 		c16Commit(c, ut, "+3", "1")
+		// nSrc moves by what was copied, or over one three-byte escape; by the
+		// match offset only where 'copied == offset' is established (a short
+		// destination otherwise loses the bytes that did not fit)
+		nAdv := 0
+		for _, w := range ut.Writes() {
+			if ut.Norm(w.LHS, nil) != "r1" {
+				continue
+			}
+			nAdv++
+			inc := w.Tok.String()
+			if w.RHS != nil {
+				inc = affine(ut, w.RHS)
+			}
+			okA, why := inc == "+def:builtin.copy" || inc == "+3", "unexpected advance "+inc
+			if inc == "+def:bytes.IndexRune" {
+				wp, _ := g.Where(w.Stmt)
+				okA, why = g.DominatedAny(wp, []string{"eq(builtin.copy(*),bytes.IndexRune(*))", "eq(bytes.IndexRune(*),builtin.copy(*))"})
+				why = "source advanced by the match offset although fewer bytes may have been copied: " + why
+			}
+			c.r.Check("C16.3", ut, "advance of nSrc by "+inc, "E-aff: nSrc advances by the copied count or over one escape sequence (by the match offset only after 'copied == offset')", w.Stmt.Pos(), okA, why)
+		}
+		c.r.Floor("C16.3", "advances of nSrc in the unescape transformer", nAdv, 5)
 		// the slice tested is src[nSrc+idx+1 : nSrc+idx+3]
 		for _, cl := range ut.Calls("jid.shouldUnescape") {
 			sl, ok := ast.Unparen(cl.Args[0]).(*ast.SliceExpr)
